@@ -37,7 +37,9 @@ func genCase(t *rapid.T) Case {
 		o.MaxKeys, o.MaxElems = 24, 40
 	}
 	f := gen.GenFile(t, o)
-	return Case{File: f, Cfg: fullsync.GenCfg(t)}
+	c := Case{File: f, Cfg: fullsync.GenCfg(t)}
+	c.Cfg.Normalize(c.File.Items)
+	return c
 }
 
 type failure struct{ sig, msg string }
